@@ -25,6 +25,29 @@ CLAIMED = {
             "Does not decide that the reported solution satisfies the equations (needs the Newton solver and the compiled evaluator, see C15/C16), "
             "the curve_fit quality of >=3-point pump curves, the monotonicity of the head-pump smoothing cubic (checked at run time by WNTR) or "
             "the complete PRV/PSV status automaton. Trusts sympy normal forms and sa/symx.py.", "DESIGN.md §4 C02"),
+    "C04": ("finite region evaluation (partial evaluation of the conditions' evaluate methods over representative orderings of previous/current time "
+            "vs threshold, per relation and repeat mode) against the instant/interval semantics; sort-site table; abstract first iteration of the "
+            "rule clock; CFG dominance for rule-clock increments; classification tables",
+            "Decides the truth tables (incl. partial-step values) of sim-time and clock-time conditions for at/after/before/>=/<= once and "
+            "repeating, the priority ordering of all six control lists (highest priority writes last; stable time ordering of pre-solve controls), "
+            "that each rule evaluation advances the rule clock once at rule_iter*rule_timestep, the pre/post-solve/rule classification, the "
+            "partial-step bookkeeping and the reader's construction of TIME / CLOCKTIME controls.",
+            "Region evaluation uses representative points of each ordering region (threshold 2:00, two days, period 10 h); EPANET's own timeline "
+            "and the interplay with tank controls are not decided. One known finding: rules are evaluated at t = 0 before the first solve.", "DESIGN.md §4 C04"),
+    "C05": ("path rules (must-pass / must-not-reach) on run_sim's CFG for the post-solve re-solve loop; partial evaluation of ControlAction.__init__ "
+            "into an attribute map; extraction of comparison tables and reader keyword maps",
+            "Decides that no step is saved, stored as accepted or advanced while a post-solve control still changed something, that the re-solve "
+            "path updates the model, resets the reference point and increments the bounded trial counter, that control actions land on the "
+            "run-time field the status function reads and are reported under the public name, and that ABOVE/BELOW/relations mean what they say.",
+            "Does not decide the invariant over actual trajectories nor equal-priority conflicts; effective status is C02's table; partial steps "
+            "for tank-level thresholds are C06's rule R-C06-4.", "DESIGN.md §4 C05"),
+    "C06": ("formula extraction of the Euler step of update_tank_heads (sympy, with interp as an uninterpreted function) and of get_volume / "
+            "level; CFG path rules for the previous-value bookkeeping; case-table extraction of _get_all_tank_controls by abstract interpretation "
+            "over link kind / orientation / limit",
+            "Decides that the integration step is last accepted head + demand*dt/area (or the volume-curve equivalent measured from the last "
+            "accepted level), applied once per step from the last accepted state, and that for every kind of adjacent link exactly the right "
+            "closing / re-opening controls exist with the right head thresholds, priorities and solve phases.",
+            "Does not decide the ~2 s overshoot bound nor that limits hold on every trajectory.", "DESIGN.md §4 C06"),
     "C07": ("formula extraction of the five-branch PDD constraint, of cubic_spline and of the spline-data builder into sympy terms; symbolic "
             "identities (interpolation conditions) and breakpoint agreement as formulas in the exponent; override-rule path tables",
             "Decides that the registered pressure-demand function is the documented one, C0/C1-continuous across all four breakpoints for ANY "
